@@ -3,6 +3,6 @@ SPECIFICATION Spec
 CONSTANTS
   Views <- MC_SomeViews
   MaxTx = 2
-INVARIANTS TypeOK C16_AcceptOnlyMatching C16_AtMostThree C16_NoAcceptAfterCap C16_EndsOtherwise C16_OutcomeAllowed
+INVARIANTS TypeOK C16_AcceptOnlyMatching C16_AtMostThree C16_NoAcceptAfterCap C16_EndsOtherwise C16_OutcomeAllowed C16_ForeignIgnored
 PROPERTY Sanity_Final
 CHECK_DEADLOCK FALSE
